@@ -389,6 +389,8 @@ void executeRun(const Desc& d, Obs& o) {
     RS.outsideShell = UtestShell::getCurrent();
     for (int i = 0; i < N_TARGETS; i++) g_tgt[i] = &g_init[i];
     memset(RS.slots, 0, sizeof RS.slots);
+    for (size_t g = 0; g < d.groups.size(); g++) if (d.groups[g].tag == "presets")
+        for (size_t i = 0; i < d.groups[g].ops.size() && i < 8; i++) { const Op& po = d.groups[g].ops[i]; if (po.kind != K_PTR_SET) continue; UT_PTR_SET(g_tgt[po.a % N_TARGETS], (void*)&g_val[po.b % N_VALUES]); fired("pointer_set_outside_tests"); }
 
     simClock().reset((uint64_t)d.pi("clock_start"), d.pi("clock_step", 1));
     simIO().reset();
